@@ -84,15 +84,15 @@ def read_json(path):
         return json.load(f)
 
 
-def read_csv(path):
+def read_csv(path, delimiter=",", quotechar='"'):
     if not os.path.exists(path):
         return None
     with open(path, newline="") as f:
-        return [row for row in csv.reader(f)]
+        return [row for row in csv.reader(f, delimiter=delimiter, quotechar=quotechar)]
 
 
-def project_member(member_dir):
-    """Parsed meaning of one member's result directory."""
+def project_member(member_dir, delimiter=",", quotechar='"'):
+    """Parsed meaning of one member's result directory (the line files are in the run's dialect)."""
     out = {"files": sorted(os.listdir(member_dir)) if os.path.isdir(member_dir) else None}
     if out["files"] is None:
         return out
@@ -103,8 +103,8 @@ def project_member(member_dir):
                 out[name] = read_json(p)
             except Exception as e:  # unreadable is an observation
                 out[name] = f"UNREADABLE {type(e).__name__}"
-    out["data.csv"] = read_csv(os.path.join(member_dir, "data.csv"))
-    out["unmatched.csv"] = read_csv(os.path.join(member_dir, "unmatched.csv"))
+    out["data.csv"] = read_csv(os.path.join(member_dir, "data.csv"), delimiter, quotechar)
+    out["unmatched.csv"] = read_csv(os.path.join(member_dir, "unmatched.csv"), delimiter, quotechar)
     p = os.path.join(member_dir, "printouts.txt")
     if os.path.exists(p):
         with open(p) as f:
